@@ -80,6 +80,8 @@ def cases(draw):
             'mode': draw(st.sampled_from([['--enable-shared',
                                            '--enable-static'], []])),
             'seeds': seeds,
+            # the scripts themselves listed as files to distribute
+            'dist_bootstrap': draw(st.booleans()),
             'toolchain': draw(st.sampled_from([None, None, TOOLCHAINS[0],
                                                TOOLCHAINS[1]])),
             # requirement lists of the generated .pc file: one name may be
@@ -139,6 +141,9 @@ def render(case, src):
     L.append('test(t)')
     L.append("alias('everything', [prog, t])")
     L.append("submodule('sub')")
+    if case.get('dist_bootstrap'):
+        L.append("extra_dist(files=['build.bfg', 'options.bfg', 'main.c', "
+                 "'t1.c'])")
     L.append("import json")
     L.append("with open(env.builddir.append('argv.json').string(), 'w') as "
              "_f: json.dump(vars(argv), _f, sort_keys=True)")
